@@ -30,20 +30,25 @@ static std::string ser07(const C07Case &c) { std::string s = "C07|" + std::to_st
 static bool parse07(const std::string &s, C07Case &c) { auto f = split(s, '|'); if (f.size() < 4 || f[0] != "C07") return false; c.poolseed = strtoull(f[1].c_str(), nullptr, 10); c.n = atoi(f[2].c_str()); c.at_end = f[3] == "1"; for (size_t i = 4; i < f.size(); i++) { auto q = split(f[i], ':'); if (q.size() != 4) return false; c.cmds.push_back({atoi(q[0].c_str()), atoi(q[1].c_str()), atoi(q[2].c_str()), atoi(q[3].c_str())}); } return true; }
 // a quarter of the programs consists of lines written as densely as possible (code as long as or longer than its text, more so with padding)
 static const char *DENSE[] = {"mov [0],-1", "call 0", "jmp 0", "mov [9],-1", "add [0],-1", "xbegin 0", "mov rax,-1", "push -1", "mov [rax],-1", "call 9", "nop9", "nop11", "nop 25", "nop 200", "nop11 11"};   /* the last three are no valid lines today: whatever a later version makes of them must stay inside the buffer too */
-static std::vector<std::string> lines_for(const Pool &P, int seed, int nlines, int badpos) { hz::Rng r((uint64_t)seed * 2654435761ULL + 29); std::vector<std::string> v; bool dense = seed % 4 == 3; nlines = 1 + (nlines % 24); for (int i = 0; i < nlines; i++) { if (badpos >= 0 && i == badpos % nlines) v.push_back(P.bad[r.below(P.bad.size())]); v.push_back(dense ? std::string(DENSE[r.below(15)]) : P.lines[r.below(P.lines.size())]); } return v; }
+// an eighth consists of the longest encodings the syntax reaches (13..18 bytes: address-size prefix, REX, SIB, disp32 and a wide immediate)
+static const char *LONG7[] = {"imul r9d, word [eax+ebx*8+0x11223344], 0x1122334455667788", "add qword [eax+ebx*8+0x12345678], 0x1122334455667788", "mov qword [r8d+r9d*8+0x12345678], 0x55667788", "test qword [r12d+r13d*2+0x7fffffff], 0x1122334455667788",
+  "imul r15, qword [r8d+r9d*4+0x11223344], 0x55667788", "vperm2i128 ymm9, ymm10, [r11d+r12d*8+0x11223344], 0x12", "shld word [r8d+r9d*2+0x12345678], r10w, 0x1122", "mov r15, 0x1122334455667788", "cmp word [eax+r9d*8-0x12345678], 0x1122334455", "mov qword [eax+ebx*8+0x12345678], 0x12345678"};
+static std::vector<std::string> lines_for(const Pool &P, int seed, int nlines, int badpos) { hz::Rng r((uint64_t)seed * 2654435761ULL + 29); std::vector<std::string> v; bool dense = seed % 4 == 3;
+  if (seed % 8 == 5) { nlines = 1 + (nlines % 24); for (int i = 0; i < nlines; i++) { if (badpos >= 0 && i == badpos % nlines) v.push_back(P.bad[r.below(P.bad.size())]); v.push_back(LONG7[(seed / 8 + i) % 10]); } return v; } nlines = 1 + (nlines % 24); for (int i = 0; i < nlines; i++) { if (badpos >= 0 && i == badpos % nlines) v.push_back(P.bad[r.below(P.bad.size())]); v.push_back(dense ? std::string(DENSE[r.below(15)]) : P.lines[r.below(P.lines.size())]); } return v; }
 static std::string text07(const C07Case &c) {
   std::string s = "buffer of " + std::to_string(c.n) + " bytes (" + (c.at_end ? "guard page right behind" : "guard page right in front") + "): "; char b[96];
   for (auto &h : c.cmds) { switch (h.kind) {
       case 0: s += std::string(SETTER7[h.a % 5]) + "(" + std::to_string(h.b) + ")"; break;
       case 1: snprintf(b, sizeof b, "asm_set_chunk_size(%d)", CHUNKS7[h.a % 13]); s += b; break;
       case 2: snprintf(b, sizeof b, "asm_set_offset(%d)", c.n ? h.a % (c.n + 1) : 0); s += b; break;
-      case 3: snprintf(b, sizeof b, "%sassemble_str(<%d valid lines #%d>)", h.a % 3 == 1 ? "" : "asm_", 1 + h.b % 24, h.a); s += b; break;
+      case 3: snprintf(b, sizeof b, "%sassemble_%s(<%d valid lines #%d>)", h.a % 3 == 1 ? "" : "asm_", (((unsigned)h.a + (unsigned)h.b) % 5 == 2) ? "file" : "str", 1 + h.b % 24, h.a); s += b; break;
       case 4: snprintf(b, sizeof b, "%sassemble_str(<program #%d with a bad line>)", h.a % 3 == 1 ? "" : "asm_", h.a); s += b; break;
-      case 5: snprintf(b, sizeof b, "%sassemble_string_counting_chunks(<program #%d>, %d)", h.a % 3 == 1 ? "" : "asm_", h.a, CHUNKS7[h.c % 13]); s += b; break; }
+      case 5: if (((unsigned)h.a + (unsigned)h.b) % 5 == 2) snprintf(b, sizeof b, "asm_assemble_file_counting_chunks(<program #%d>, %d)", h.a, CHUNKS7[h.c % 13]); else snprintf(b, sizeof b, "%sassemble_string_counting_chunks(<program #%d>, %d)", h.a % 3 == 1 ? "" : "asm_", h.a, CHUNKS7[h.c % 13]); s += b; break; }
     s += "; "; }
   return s;
 }
 
+static bool via_file7(const BCmd &h) { return ((unsigned)h.a + (unsigned)h.b) % 5 == 2; }
 struct BV { bool ok = true; std::string symptom, detail; int reserve_hits = 0, fail_then_call = 0; };
 static BV check07(const Pool &P, const C07Case &c) {
   BV v; auto bad = [&](const std::string &s, const std::string &d) { v.ok = false; v.symptom = s; v.detail = d; return v; };
@@ -87,7 +92,20 @@ static BV check07(const Pool &P, const C07Case &c) {
     int rc, cnt = 0;
     // the deprecated names are entry points with the same contract: a third of the calls goes through them
     bool alias = h.a % 3 == 1;
-    if (h.kind == 5) { std::vector<char> w(text.begin(), text.end()); w.push_back(0); rc = alias ? assemble_string_counting_chunks(a, w.data(), CHUNKS7[h.c % 13], &cnt) : asm_assemble_string_counting_chunks(a, w.data(), CHUNKS7[h.c % 13], &cnt); }
+    // a fifth of the calls with valid lines goes through the file entry points: the text, padded by a trailing comment to a size on or next to
+    // a page multiple, is read from a file (fault-injectable build: whatever the library maps for it ends in front of an inaccessible page)
+    if ((h.kind == 3 || h.kind == 5) && via_file7(h)) {
+      static const size_t R[] = {4095, 0, 1, 4094}; size_t want = R[((unsigned)h.a >> 1) % 4]; std::string t = text; if (t.empty() || t.back() != '\n') t += "\n";
+      size_t base = t.size() + 1, total = base + ((want + 4096 - base % 4096) % 4096); t += ';'; t += std::string(total - t.size(), 'c');
+      int fd = memfd_create("c07", 0); char path[64]; snprintf(path, sizeof path, "/proc/self/fd/%d", fd);
+      if (fd < 0 || write(fd, t.data(), t.size()) != (ssize_t)t.size()) { if (fd >= 0) close(fd); asm_destroy_instance(a); return bad("harness", "cannot create the program file"); }
+      if (&alw != nullptr) alw.guard_files = 1;
+      if (h.kind == 5) rc = asm_assemble_file_counting_chunks(a, path, CHUNKS7[h.c % 13], &cnt);
+      else rc = alias ? assemble_file(a, path) : asm_assemble_file(a, path);
+      if (&alw != nullptr) alw.guard_files = 0;
+      close(fd);
+    }
+    else if (h.kind == 5) { std::vector<char> w(text.begin(), text.end()); w.push_back(0); rc = alias ? assemble_string_counting_chunks(a, w.data(), CHUNKS7[h.c % 13], &cnt) : asm_assemble_string_counting_chunks(a, w.data(), CHUNKS7[h.c % 13], &cnt); }
     else rc = alias ? assemble_str(a, text.c_str()) : asm_assemble_str(a, text.c_str());
     if (rc != 0 && rc != 1) { asm_destroy_instance(a); return bad("return-value", "call " + std::to_string(step) + " returned " + std::to_string(rc)); }
     size_t where = 0;
@@ -126,6 +144,13 @@ void prop_c07(hz::Ctx &ctx) {
   for (int n : ns) for (int at_end = 0; at_end < 2; at_end++) for (auto &h : H) for (int var = 0; var < 3; var++) {
     if (!ctx.take()) continue; C07Case c; c.n = n; c.at_end = at_end; c.poolseed = ctx.seed; c.cmds = h; for (auto &x : c.cmds) x.a += var * 17;
     run(c, "part:exhaustive-n", false);
+  }
+  // the reserve rule where chunk fitting has to pad: chunk 16/32/64, one of the longest encodings starting g bytes in front of a chunk
+  // boundary (g = 1..17: every gap it can straddle), in a buffer that ends 18..23 bytes behind that position (around the 20 reserve bytes)
+  for (int ci : {7, 9, 10}) for (int li = 0; li < 10; li++) for (int g = 1; g <= 17; g++) for (int e = -2; e <= 3; e++) for (int at_end = 0; at_end < 2; at_end++) {
+    if (!ctx.take()) continue; int cs = CHUNKS7[ci]; if (g >= cs) continue; int pos = 3 * cs - g; C07Case c; c.n = pos + 20 + e; c.at_end = at_end; c.poolseed = ctx.seed;
+    c.cmds = {{1, ci, 0, 0}, {2, pos, 0, 0}, {3, 5 + 8 * li, 0, 0}};
+    run(c, "part:reserve-where-fitting-pads", false);
   }
   // random histories, n sampled up to 8192 with emphasis on small n (rapidcheck)
   static const int V[] = {0, 1, 2, 7};
